@@ -4,10 +4,11 @@
 package c01
 
 import (
-	"github.com/rs/zerolog"
-	"io"
+	"context"
 	"encoding/json"
 	"fmt"
+	"github.com/rs/zerolog"
+	"io"
 	"strings"
 	"time"
 
@@ -95,6 +96,11 @@ func (s *script) Authenticate(st hx.Step, _ heimdall.Context) (*subject.Subject,
 	case 2:
 		return nil, errorchain.NewWithMessage(heimdall.ErrAuthentication, "bad credentials")
 	case 3:
+		// what a call to an identity provider that ran into its deadline looks like; every other time without a cause
+		if s.pos%2 == 0 {
+			return nil, errorchain.NewWithMessage(heimdall.ErrCommunication, "idp down").CausedBy(context.DeadlineExceeded)
+		}
+
 		return nil, errorchain.NewWithMessage(heimdall.ErrCommunication, "idp down")
 	default:
 		panic("scripted panic in " + st.ID)
@@ -110,6 +116,12 @@ func (s *script) Handle(st hx.Step, _ heimdall.Context, _ *subject.Subject) erro
 	case 1:
 		return errorchain.NewWithMessage(heimdall.ErrAuthorization, "denied")
 	case 2:
+		// what a call to a remote system looks like that was given up because its context was cancelled; every other time
+		// without a cause
+		if s.pos%2 == 0 {
+			return errorchain.NewWithMessage(heimdall.ErrCommunication, "remote down").CausedBy(context.Canceled)
+		}
+
 		return errorchain.NewWithMessage(heimdall.ErrCommunication, "remote down")
 	case 3:
 		return errorchain.NewWithMessage(heimdall.ErrInternal, "broken")
